@@ -1518,3 +1518,100 @@ func c19AgentWait(c *core.Ctx) {
 	}
 	c.Check(same, "C19.agentwait", "Agent.Wait#wait-for-all", loop.Pos(), "Agent.Wait's loop runs under the condition %s, not while any of %v is still to be heard from: it ends after the first of the agent's two loops has reported — the read loop's result is already there when the handler is done, so Wait returns while the write loop has only just taken the last response; a process UDF (Start, Wait, exit) loses its last point, for a batch the END message and with it the whole last batch, and the write error is never reported", cond, an.SortedKeys(chans))
 }
+
+// c07ForkEdge (F125): the input edge of a stream task is closed by delFork(id). The edge that newFork creates must therefore be
+// stored where delFork finds it for EVERY task: in a map keyed by the task's name, outside the loop over the fork keys (a task
+// without a from node has no keys), and delFork must close what it finds there.
+func c07ForkEdge(c *core.Ctx, root *packages.Package) {
+	c.Rule("C07.forkedge", "A1: F125: newFork stores the edge it creates under the task's name on every path — not only inside the loop over the fork keys, which is empty for a stream task without a from node — and delFork closes the edge it finds under that name: otherwise the task's input never ends and StopTask/DeleteTask/Close never return")
+	info := root.TypesInfo
+	nf := c.Need("C07.forkedge", "", "TaskMaster", "newFork")
+	df := c.Need("C07.forkedge", "", "TaskMaster", "delFork")
+	if nf == nil || df == nil {
+		return
+	}
+	c.Analysed(nf)
+	c.Analysed(df)
+	name := an.ParamName(nf.Decl.Type, 0)
+	// the edge variable: the local assigned from newEdge(...)
+	var edgeObj types.Object
+	ast.Inspect(nf.Decl.Body, func(n ast.Node) bool {
+		if as, ok := n.(*ast.AssignStmt); ok && len(as.Lhs) == 1 && len(as.Rhs) == 1 {
+			if call, ok := as.Rhs[0].(*ast.CallExpr); ok {
+				if cal := core.Callee(info, call); cal != nil && cal.Name() == "newEdge" {
+					if id, ok := as.Lhs[0].(*ast.Ident); ok {
+						edgeObj = info.Defs[id]
+					}
+				}
+			}
+		}
+		return true
+	})
+	if edgeObj == nil {
+		c.Undecided("C07.forkedge", "TaskMaster.newFork", nf.Decl.Pos(), "the edge created by newEdge was not found")
+		return
+	}
+	// a store <field>[name] = e among the top-level statements (not inside a loop or condition)
+	var byTask *types.Var
+	for _, st := range nf.Decl.Body.List {
+		as, ok := st.(*ast.AssignStmt)
+		if !ok || len(as.Lhs) != 1 || len(as.Rhs) != 1 {
+			continue
+		}
+		ix, ok := ast.Unparen(as.Lhs[0]).(*ast.IndexExpr)
+		if !ok || types.ExprString(ix.Index) != name {
+			continue
+		}
+		id, ok := ast.Unparen(as.Rhs[0]).(*ast.Ident)
+		if !ok || info.Uses[id] != edgeObj {
+			continue
+		}
+		if sel, ok := ast.Unparen(ix.X).(*ast.SelectorExpr); ok {
+			if s, ok := info.Selections[sel]; ok && s.Kind() == types.FieldVal {
+				byTask, _ = s.Obj().(*types.Var)
+			}
+		}
+	}
+	if byTask == nil {
+		c.Fail("C07.forkedge", "TaskMaster.newFork#by-task", nf.Decl.Pos(), "newFork stores the edge it creates only inside the loop over the fork keys: a stream task without a from node (stream|stats(10s)|log()) has no keys, delFork finds nothing to close, the task waits for the end of its input for good — StopTask, DeleteTask and Close never return and hold up every later start and stop")
+		return
+	}
+	c.Ok("C07.forkedge", "TaskMaster.newFork#by-task")
+	// delFork closes what it finds there
+	id := an.ParamName(df.Decl.Type, 0)
+	closes := false
+	ast.Inspect(df.Decl.Body, func(n ast.Node) bool {
+		is, ok := n.(*ast.IfStmt)
+		if !ok || is.Init == nil {
+			return true
+		}
+		as, ok := is.Init.(*ast.AssignStmt)
+		if !ok || len(as.Rhs) != 1 {
+			return true
+		}
+		ix, ok := ast.Unparen(as.Rhs[0]).(*ast.IndexExpr)
+		if !ok || types.ExprString(ix.Index) != id {
+			return true
+		}
+		sel, ok := ast.Unparen(ix.X).(*ast.SelectorExpr)
+		if !ok {
+			return true
+		}
+		if s, ok := info.Selections[sel]; !ok || s.Obj() != byTask {
+			return true
+		}
+		v, _ := as.Lhs[0].(*ast.Ident)
+		ast.Inspect(is.Body, func(m ast.Node) bool {
+			if call, ok := m.(*ast.CallExpr); ok {
+				if cs, ok := call.Fun.(*ast.SelectorExpr); ok && cs.Sel.Name == "Close" && v != nil {
+					if x, ok := ast.Unparen(cs.X).(*ast.Ident); ok && info.Uses[x] == info.Defs[v] {
+						closes = true
+					}
+				}
+			}
+			return true
+		})
+		return true
+	})
+	c.Check(closes, "C07.forkedge", "TaskMaster.delFork#close-by-task", df.Decl.Pos(), "delFork does not close the edge stored under the task's name in %s: the edge of a fork without keys is never closed", byTask.Name())
+}
